@@ -517,7 +517,10 @@ impl<'a> VariableParserExtension<'a> {
         let reflection =
             HashmapReflection::new(ctrl as *mut u8, bucket_mask as usize, kv_size as usize);
 
-        let iterator = reflection.iter(pcx.evcx.ecx.pid_on_focus())?;
+        // the table header may be garbage: show no more items than a vector would
+        let iterator = reflection
+            .iter(pcx.evcx.ecx.pid_on_focus())?
+            .take(LEN_GUARD as usize);
         let kv_items = iterator
             .map_err(ParsingError::from)
             .filter_map(|bucket| {
@@ -582,7 +585,10 @@ impl<'a> VariableParserExtension<'a> {
         let reflection =
             HashmapReflection::new(ctrl as *mut u8, bucket_mask as usize, kv_size as usize);
 
-        let iterator = reflection.iter(pcx.evcx.ecx.pid_on_focus())?;
+        // the table header may be garbage: show no more items than a vector would
+        let iterator = reflection
+            .iter(pcx.evcx.ecx.pid_on_focus())?
+            .take(LEN_GUARD as usize);
         let items = iterator
             .map_err(ParsingError::from)
             .filter_map(|bucket| {
@@ -659,7 +665,7 @@ impl<'a> VariableParserExtension<'a> {
             k_type,
             v_type,
         )?;
-        let iterator = reflection.iter(pcx.evcx)?;
+        let iterator = reflection.iter(pcx.evcx)?.take(LEN_GUARD as usize);
         let kv_items = iterator
             .map_err(ParsingError::from)
             .filter_map(|(k, v)| {
